@@ -21,7 +21,7 @@ from concurrent.futures import ThreadPoolExecutor
 
 VERIF = os.path.dirname(os.path.dirname(os.path.abspath(__file__)))
 SPECS = os.path.join(VERIF, 'specs')
-EVIDENCE = os.path.join(VERIF, 'evidence')
+EVIDENCE = os.environ.get('VERIF_EVIDENCE') or os.path.join(VERIF, 'evidence')
 REPLAYS = os.environ.get('VERIF_REPLAYS') or os.path.join(VERIF, 'replays')
 REPO = os.path.abspath(os.environ.get('VERIF_REPO', '/repo'))
 PY = os.environ.get('VERIF_PYTHON', '/venv/bin/python')
